@@ -475,7 +475,8 @@ class CompoundInterval(Location):
         self.length = length
 
         self.start = self._starts[0]
-        self.end = self._ends[-1]
+        # blocks are sorted by start; with nested blocks the last block need not reach furthest
+        self.end = max(self._ends)
 
     @staticmethod
     def _sort_starts_ends(
